@@ -16,12 +16,12 @@ import (
 )
 
 type Program struct {
-	Fset   *token.FileSet
-	Pkgs   []*packages.Package
-	All    map[string]*packages.Package // by path, incl. deps
-	SSA    *ssa.Program
-	Funcs  map[string]*ssa.Function // key: pkgpath + "." + relative name, e.g. "…/thrift.(*BinaryProtocol).skipn"
-	files  map[*token.File]*ast.File
+	Fset    *token.FileSet
+	Pkgs    []*packages.Package
+	All     map[string]*packages.Package // by path, incl. deps
+	SSA     *ssa.Program
+	Funcs   map[string]*ssa.Function // key: pkgpath + "." + relative name, e.g. "…/thrift.(*BinaryProtocol).skipn"
+	files   map[*token.File]*ast.File
 	RepoDir string
 }
 
